@@ -177,30 +177,43 @@ theorem splice_length (xs src : List α) (a : Nat) (h : a + src.length ≤ xs.le
 
 /-! ## the compact banks' indices -/
 
-/-- what the constructors guarantee about a filter's edges, as exact fractions of the sampling rate:
-`0 ≤ low ≤ high ≤ 1/2` (Nyquist), and a DFT of at least two bins -/
+/-- what the constructors guarantee about a filter's edges, as exact fractions of the sampling rate,
+with the slack float round-off of the vertices needs (`scale_to_hertz(hertz_to_scale(f))` may miss
+`0` or the Nyquist by an ulp): `low ≤ high`, `low ≤ 1/2`, `0 ≤ high`,
+`-1 < W·low` (`low ≥ 0` up to round-off) and `W·(high − 1/2) < 1/2` (`high ≤ Nyquist` up to
+round-off); and a DFT of at least two bins.  `CompactOK.of_exact` : `0 ≤ low ≤ high ≤ 1/2` suffices. -/
 structure CompactOK (W : Nat) (lo hi : Frac) : Prop where
   hW : 2 ≤ W
   lden : 0 < lo.den
   hden : 0 < hi.den
-  lo0 : 0 ≤ lo.num
+  lo0 : -lo.den < (W : Int) * lo.num
+  hi0 : 0 ≤ hi.num
   lohi : lo.num * hi.den ≤ hi.num * lo.den
-  hiNy : 2 * hi.num ≤ hi.den
+  loNy : 2 * lo.num ≤ lo.den
+  hiNy : (W : Int) * (2 * hi.num - hi.den) < hi.den
 
-theorem CompactOK.hi0 {W lo hi} (h : CompactOK W lo hi) : 0 ≤ hi.num := by
-  have h1 : 0 ≤ lo.num * hi.den := mul_nonneg h.lo0 h.hden.le
-  have h2 : 0 ≤ hi.num * lo.den := le_trans h1 h.lohi
-  by_contra hc
-  have : hi.num * lo.den < 0 := mul_neg_of_neg_of_pos (by omega) h.lden
-  omega
-
-theorem CompactOK.loNy {W lo hi} (h : CompactOK W lo hi) : 2 * lo.num ≤ lo.den := by
-  have h1 := h.lohi; have h2 := h.hiNy; have h3 := h.hden; have h4 := h.lden
-  by_contra hc
-  have hc : lo.den < 2 * lo.num := by omega
-  have : lo.den * hi.den < 2 * lo.num * hi.den := mul_lt_mul_of_pos_right hc h3
-  have : 2 * hi.num * lo.den ≤ hi.den * lo.den := mul_le_mul_of_nonneg_right h2 h4.le
-  nlinarith
+/-- exact edges `0 ≤ low ≤ high ≤ Nyquist` satisfy `CompactOK` for every width `W ≥ 2` -/
+theorem CompactOK.of_exact {W : Nat} {lo hi : Frac} (hW : 2 ≤ W) (lden : 0 < lo.den) (hden : 0 < hi.den)
+    (lo0 : 0 ≤ lo.num) (lohi : lo.num * hi.den ≤ hi.num * lo.den) (hiNy : 2 * hi.num ≤ hi.den) :
+    CompactOK W lo hi := by
+  have hi0 : 0 ≤ hi.num := by
+    have h1 : 0 ≤ lo.num * hi.den := mul_nonneg lo0 hden.le
+    have h2 : 0 ≤ hi.num * lo.den := le_trans h1 lohi
+    by_contra hc
+    have : hi.num * lo.den < 0 := mul_neg_of_neg_of_pos (by omega) lden
+    omega
+  have loNy : 2 * lo.num ≤ lo.den := by
+    by_contra hc
+    have hc : lo.den < 2 * lo.num := by omega
+    have : lo.den * hi.den < 2 * lo.num * hi.den := mul_lt_mul_of_pos_right hc hden
+    have : 2 * hi.num * lo.den ≤ hi.den * lo.den := mul_le_mul_of_nonneg_right hiNy lden.le
+    nlinarith
+  have hWp : (0 : Int) ≤ (W : Int) := by omega
+  refine ⟨hW, lden, hden, ?_, hi0, lohi, loNy, ?_⟩
+  · have : 0 ≤ (W : Int) * lo.num := mul_nonneg hWp lo0
+    omega
+  · have : (W : Int) * (2 * hi.num - hi.den) ≤ 0 := mul_nonpos_of_nonneg_of_nonpos hWp (by omega)
+    omega
 
 theorem compact_idx {W lo hi} (h : CompactOK W lo hi) :
     0 ≤ leftIdx W lo ∧ leftIdx W lo < W ∧ leftIdx W lo ≤ rightIdx W hi + 1 ∧
@@ -209,7 +222,6 @@ theorem compact_idx {W lo hi} (h : CompactOK W lo hi) :
   have hW := h.hW; have hld := h.lden; have hhd := h.hden; have hl0 := h.lo0
   have hh0 := h.hi0; have hlh := h.lohi; have hny := h.hiNy; have hlny := h.loNy
   have hWp : (0:Int) ≤ (W:Int) := by omega
-  have hA : 0 ≤ (W:Int) * lo.num := mul_nonneg hWp hl0
   have hB : 0 ≤ (W:Int) * hi.num := mul_nonneg hWp hh0
   unfold leftIdx rightIdx
   set L := ceilDiv ((W:Int) * lo.num) lo.den with hL
@@ -219,7 +231,7 @@ theorem compact_idx {W lo hi} (h : CompactOK W lo hi) :
   have hR1 : R * hi.den ≤ (W:Int) * hi.num := (le_truncDiv_iff hB hhd R).mp (le_refl _)
   have hR2 : (W:Int) * hi.num < (R + 1) * hi.den := (truncDiv_lt_iff hB hhd (R+1)).mp (by omega)
   have c1 : 0 ≤ L := by
-    have : (-1 : Int) < L := (lt_ceilDiv_iff hld (-1)).mpr (by nlinarith)
+    have : (-1 : Int) < L := (lt_ceilDiv_iff hld (-1)).mpr (by linarith)
     omega
   have c2 : L < W := by
     have : L ≤ (W:Int) - 1 := (ceilDiv_le_iff hld _).mpr (by nlinarith)
@@ -233,8 +245,9 @@ theorem compact_idx {W lo hi} (h : CompactOK W lo hi) :
     exact le_of_lt (lt_of_mul_lt_mul_right h3 hhd.le)
   have c4 : 0 ≤ R := (le_truncDiv_iff hB hhd 0).mpr (by simpa using hB)
   have c5 : 2 * R ≤ W := by
-    have h1 : 2 * R * hi.den ≤ (W:Int) * hi.den := by nlinarith
-    exact le_of_mul_le_mul_right h1 hhd
+    have h1 : 2 * R * hi.den < ((W:Int) + 1) * hi.den := by nlinarith
+    have := lt_of_mul_lt_mul_right h1 hhd.le
+    omega
   have c6 : 2 * L ≤ W + 1 := by
     have h1 : 2 * (L - 1) * lo.den < (W:Int) * lo.den := by nlinarith
     have := lt_of_mul_lt_mul_right h1 hld.le
